@@ -82,6 +82,10 @@ class World:
         b = s.cmd("slogin_start", rng=self.rng, setup="S", file=fh, req="t.cq", cred=cred_login, ctx=srv_e[2], id_u=srv_e[0], id_s=srv_e[1],
                   out_state="t.sl", out_msg="t.cr", params_via=["literal", "clone", "default"][k % 3])
         self.evals += 2
+        over = any(v is not None and len(v) > 65535 for v in (srv_e[0], srv_e[1], srv_e[2], cli_e[0], cli_e[1], cli_e[2]))
+        if over and (a.failed or b.failed):
+            self.stats["over_limit_refused"] = self.stats.get("over_limit_refused", 0) + 1
+            return None
         if a.failed or b.failed:
             self.viol.append({"sig": "C05 login start failed for in-domain parameters", "what": "%s: %s %s" % (self.su, dict(a) if a.failed else "", dict(b) if b.failed else "")})
             return None
@@ -97,6 +101,14 @@ class World:
         st["triples"] += 1
         if c.get("panic") or c.get("died"):
             self.viol.append({"sig": "C05 client finish crashed", "what": "%s: %s" % (desc, dict(c))})
+            return None
+        if over:
+            # beyond the encodable limit nothing may be bound "by omission": the login must not complete
+            if c.ok:
+                self.viol.append({"sig": "C05 login completed with an over-limit context / identity (%s)" % why,
+                                  "what": "ClientLogin::finish succeeded although a parameter exceeds 65535 bytes: %s" % desc})
+            else:
+                st["over_limit_refused"] = st.get("over_limit_refused", 0) + 1
             return None
         if expect:
             st["expected_match"] += 1
@@ -216,6 +228,12 @@ def run_job(job):
             run((v, v), (v, v, None), (v, v, None), "agree: id_u == id_s")
             run((v, v), (v, v, b"c"), (v, v, b"c"), "agree: id_u == id_s")
             run((v, v), (v, b"other", None), (v, v, None), "deviate: id_s at server start (from equal identities)")
+        # parameters beyond the 65535-byte limit on both sides (equal, and different): refused, never silently left out
+        oa, ob = b"a" * 65536, b"b" * 65537
+        run((None, None), (None, None, oa), (None, None, oa), "over-limit: equal 65536-byte contexts")
+        run((None, None), (None, None, oa), (None, None, ob), "over-limit: different over-limit contexts")
+        run((None, None), (oa, None, None), (ob, None, None), "over-limit: different over-limit client identities at login")
+        run((None, None), (None, oa, None), (None, ob, None), "over-limit: different over-limit server identities at login")
         # swapped / crossed identities
         run((b"U", b"V"), (b"V", b"U", None), (b"V", b"U", None), "collision: identities swapped, registration vs login")
         run((b"U", b"V"), (b"U", b"V", None), (b"V", b"U", None), "collision: identities swapped, client vs server")
